@@ -369,7 +369,9 @@ func c08Enum(c *lib.Ctx, yield0 func(c08Case) bool) {
 	unsupported := map[string]bool{}
 	dry := os.Getenv("VERIF_C08_DRY") != "" // dev knob: only count the cases
 	yield := func(cs c08Case) bool {
-		c.Add("cases_"+cs.Seam+"_"+cs.Type, 1)
+		if c.Shard == 0 {
+			c.Add("cases_"+cs.Seam+"_"+cs.Type, 1)
+		}
 		if dry {
 			return true
 		}
@@ -404,7 +406,9 @@ func c08Enum(c *lib.Ctx, yield0 func(c08Case) bool) {
 		for k := range u {
 			unsupported[def.Name+": "+k] = true
 		}
-		c.Add("state_leaves_"+def.Name, int64(len(leaves)))
+		if c.Shard == 0 {
+			c.Add("state_leaves_"+def.Name, int64(len(leaves)))
+		}
 		if !latEnum(leaves, lib.Pick(c, 1, 2), func(p []latPick) bool {
 			return yield(c08Case{Seam: "state", Type: def.Name, Picks: p})
 		}) {
